@@ -321,9 +321,11 @@ func cmdCheck(args []string) int {
 	// a query z3 4.8.12 leaves undecided gets a second opinion (z3 5.1.0, then cvc5) before it counts as unknown
 	cfg.FallbackMs = 60000
 	cfg.FallbackBudget = 10 * time.Minute
-	cfg.FallbackSolvers = [][]string{{"z3-new", "-in"}, {"cvc5", "--lang", "smt2", "--produce-models"}}
+	// (own hard time limits as well: a fallback solver must not outlive a check that is killed from outside)
+	cfg.FallbackSolvers = [][]string{{"z3-new", "-in", "-T:70"}, {"cvc5", "--lang", "smt2", "--produce-models", "--tlimit=70000"}}
 	if tier == "thorough" {
 		cfg.FallbackMs = 240000
+		cfg.FallbackSolvers = [][]string{{"z3-new", "-in", "-T:250"}, {"cvc5", "--lang", "smt2", "--produce-models", "--tlimit=250000"}}
 		cfg.FallbackBudget = 60 * time.Minute
 		cfg.QueryTimeoutMs = 120000
 		cfg.Samples = 24
@@ -397,6 +399,21 @@ func cmdCheck(args []string) int {
 		eng.SetConfig(jc)
 		jt := time.Now()
 		err := eng.Explore()
+		if err == nil && (len(eng.Sum.Inconclusive) > 0 || eng.Sum.ByStatus["inconclusive"] > 0) && eng.Sum.Incomplete == "" && time.Since(jt) < 10*time.Minute {
+			// solver trouble (time-outs under load, a solver that died): one more attempt with four times
+			// the time per query and half the workers; only the second attempt counts
+			fmt.Fprintf(os.Stderr, "[%s] job %s: %d inconclusive paths, running the job again with longer solver time-outs\n", prop, j.Name, eng.Sum.ByStatus["inconclusive"])
+			jc.QueryTimeoutMs *= 4
+			if jc.Workers > 4 {
+				jc.Workers /= 2
+			}
+			if j.TimeoutS > 0 {
+				jc.Deadline = time.Now().Add(time.Duration(j.TimeoutS) * time.Second)
+			}
+			eng.SetConfig(jc)
+			jt = time.Now()
+			err = eng.Explore()
+		}
 		jr := jobResult{Cfg: jc, Job: j, Sum: eng.Sum, Wall: time.Since(jt).Seconds()}
 		if err != nil {
 			jr.Err = err.Error()
